@@ -141,7 +141,9 @@ def _direct(R, rng, defn, b, cse, ctx):
     for pi in range(N_POINTS[ctx["tier"]]):
         pt = gen.point(rng, defn, scale=rng.choice([0.1, 1.0, 1.0, 3.0]))
         P, p_dtype = gen.typed_cov(rng, gen.spd(rng, len(names)))
-        st = ekf.State(**{s: pt[s] for s in defn["state"]})
+        st, st_kind = gen.typed_state(rng, defn, pt, ekf.State, monitors.names_of)
+        if st_kind:
+            R.stats.inc(f"states_handed_over_as_{st_kind}")
         cov = monitors.cov_from_matrix(ekf.Covariance, P, names, dtype=p_dtype)
         if p_dtype:
             R.stats.inc(f"covariances_handed_over_as_{p_dtype}")
